@@ -370,6 +370,19 @@ pub fn exec(it: &mut Interp, toks: &[&str], out: &mut Vec<String>) -> bool {
             }
             true
         }
+        ["hdrbyte", h] => {
+            // a header-less body behind "HPO" + every version byte
+            let Some(body) = bytes_arg(h) else { return false };
+            let cs: Vec<char> = (0..256usize)
+                .map(|v| {
+                    let mut b = vec![0x48u8, 0x50, 0x4f, v as u8];
+                    b.extend_from_slice(&body);
+                    classify(&b)
+                })
+                .collect();
+            out.push(format!("hdrbyte {}", rle(&cs)));
+            true
+        }
         ["rtcheck", a, bb] => {
             let (Some(oa), Some(ob)) = (
                 a.parse::<u32>().ok().and_then(|s| it.slots.get(&s)),
